@@ -180,12 +180,16 @@ func VerifC16Batch() {
 	f := vFactory(binary)
 	var b MetricBatch
 	n := verifrt.Choose("metrics", 3)
+	tagged := 0
+	if n == 2 {
+		tagged = verifrt.Choose("tagged-metric", 2) // a tagged metric before or after an untagged one
+	}
 	b.Metrics = make([]Metric, 0, n)
 	for i := 0; i < n; i++ {
 		m := Metric{Name: verifrt.String("name", 1), Timestamp: int64(verifrt.Int32("ts"))}
 		m.Value.MetricType = MetricType_TIMER
 		m.Value.Timer = int64(verifrt.Int16("timer"))
-		if i == 1 {
+		if i == tagged {
 			m.Tags = []MetricTag{{Name: "k", Value: verifrt.String("tv", 1)}}
 		}
 		b.Metrics = append(b.Metrics, m)
@@ -270,4 +274,49 @@ func VerifC16StringLengths() {
 // 64-byte scratch buffer.
 func VerifC16CompactBoundaryStrings() {
 	c16Metric(false, 2+verifrt.Choose("aspect", 2), 63+verifrt.Choose("strlen", 3))
+}
+
+// VerifC16ListSizes: round trip of batches whose metric list / tag list has a length around the
+// compact protocol's inline-size limit (14, 15, 16 elements), both protocols.
+func VerifC16ListSizes() {
+	binary := verifrt.Choose("binary", 2) == 1
+	f := vFactory(binary)
+	n := 14 + verifrt.Choose("n", 3)
+	var b MetricBatch
+	v := verifrt.Int64("value")
+	if verifrt.Choose("which-list", 2) == 0 {
+		for i := 0; i < n; i++ {
+			m := Metric{Name: string(rune('a' + i)), Timestamp: 1}
+			m.Value.MetricType = MetricType_COUNTER
+			m.Value.Count = v
+			b.Metrics = append(b.Metrics, m)
+		}
+	} else {
+		m := Metric{Name: "m", Timestamp: 1}
+		m.Value.MetricType = MetricType_COUNTER
+		m.Value.Count = v
+		for i := 0; i < n; i++ {
+			m.Tags = append(m.Tags, MetricTag{Name: string(rune('a' + i)), Value: "v"})
+			b.CommonTags = append(b.CommonTags, MetricTag{Name: string(rune('A' + i)), Value: "w"})
+		}
+		b.Metrics = []Metric{m}
+	}
+	buf := thrift.NewTMemoryBuffer()
+	enc := vEncode(buf, f.GetProtocol(buf), &b)
+	calc := &customtransport.TCalcTransport{}
+	verifrt.Assert("c16.lists.calc-equals-encoded-length", int(vCalc(calc, f.GetProtocol(calc), &b)) == len(enc))
+	rbuf := thrift.NewTMemoryBuffer()
+	rbuf.Write(enc)
+	var back MetricBatch
+	err := back.Read(f.GetProtocol(rbuf))
+	verifrt.Assert("c16.lists.decode-no-error", err == nil)
+	verifrt.Assert("c16.lists.decode-consumes-everything", rbuf.Len() == 0)
+	verifrt.Assert("c16.lists.metric-count", len(back.Metrics) == len(b.Metrics))
+	if len(back.Metrics) == len(b.Metrics) {
+		for i := range b.Metrics {
+			verifrt.Assert("c16.lists.roundtrip-metric", eqMetric(&b.Metrics[i], &back.Metrics[i]))
+		}
+	}
+	verifrt.Assert("c16.lists.roundtrip-common-tags", eqTags(b.CommonTags, back.CommonTags))
+	verifrt.Reach("c16.lists.end")
 }
